@@ -167,18 +167,20 @@ int disasm_cp1610(
           {
             if (table_cp1610_jump[j].ii == ii)
             {
-              if (table_cp1610_jump[j].bb != 3 && bb != 3)
+              // bb == 3 is a jump without return address, anything else
+              // is jsr with the return address in r4 + bb.
+              if (table_cp1610_jump[j].use_reg == 0 && bb == 3)
               {
                 snprintf(instruction, length, "%s 0x%04x",
-                  table_cp1610[n].instr,
+                  table_cp1610_jump[j].instr,
                   data);
                 break;
               }
                 else
-              if (bb == table_cp1610_jump[j].bb && bb == 3)
+              if (table_cp1610_jump[j].use_reg == 1 && bb != 3)
               {
                 snprintf(instruction, length, "%s r%d, 0x%04x",
-                  table_cp1610[n].instr,
+                  table_cp1610_jump[j].instr,
                   bb + 4,
                   data);
                 break;
